@@ -18,7 +18,8 @@ ASSUMPTIONS = [
 SHARDS = {"quick": 1, "thorough": 16}
 
 NAMES = ["user_id", "uid", "Zeta", "alpha", "Beta", "_id", "a", "B", "b", "a_b", "aB", "A1", "country", "device", "z9", "Z"]
-SALTS_ASCII = [" lead", "trail ", "\ttab", " ", "  ", "a  b", "x\t", "", "s", "exp-2024", "A B", "csdvs887", "it's", 'say "hi"', "C:\\temp\\new", "a\\", "%s{0}", "#x//y", "/* c */"]
+SALTS_ASCII = ["x" * 70 + "_v1", "campaign-2024-q3-checkout-button-colour-test-for-returning-customers-v12", "007", "00", "0042", "1.50", "1e3",
+               "1_000", "12", "-3", " 7", "inf", "nan", "0x10", "True", "None", "3", "0.0", " lead", "trail ", "\ttab", " ", "  ", "a  b", "x\t", "", "s", "exp-2024", "A B", "csdvs887", "it's", 'say "hi"', "C:\\temp\\new", "a\\", "%s{0}", "#x//y", "/* c */"]
 SALTS_UNI = ["é", "jose\u0301", "日本語", "salt-\U0001f600", "ß", "İ", "\u00a0x", "x\u3000", "\u2126", "\ufb01", "\uff21"]
 
 
